@@ -1,6 +1,7 @@
 package git
 
 import (
+	"errors"
 	"io/ioutil"
 	"os"
 	"os/exec"
@@ -295,4 +296,61 @@ func VPH_configDefaults() {
 		vp_Assert(got == want, "a string setting is returned exactly (only git's trailing LF removed), unset = default")
 		vp_Reach("string")
 	}
+}
+
+// VPH_configFaults (C10): the three typed getters behind sizer.* report every
+// failure of their `git config` subprocess other than git's documented
+// "not set" status 1: a fatal status (128: invalid value for the type, 2, 129),
+// a killed process (no exit status), a process that could not be started, a
+// failure after partial output, and - for the typed getters - an answer that
+// is not of the requested type.
+func VPH_configFaults() {
+	if vp_Native() {
+		vp_Reach("end")
+		return
+	}
+	repo := &Repository{gitDir: ".", gitBin: "git"}
+	kind := vp_Choice("kind", 3)
+	fault := vp_Choice("fault", 7)
+	vp_Stub("(*github.com/github/git-sizer/git.Repository).GitCommand", func(r *Repository, args ...string) *exec.Cmd {
+		return &exec.Cmd{}
+	})
+	vp_Stub("(*os/exec.Cmd).Output", func(c *exec.Cmd) ([]byte, error) {
+		switch fault {
+		case 0:
+			vp_ExitCode(128)
+			return nil, &exec.ExitError{ProcessState: &os.ProcessState{}}
+		case 1:
+			vp_ExitCode(2)
+			return nil, &exec.ExitError{ProcessState: &os.ProcessState{}}
+		case 2:
+			vp_ExitCode(129)
+			return nil, &exec.ExitError{ProcessState: &os.ProcessState{}}
+		case 3: // killed by a signal: ExitCode() is -1
+			vp_ExitCode(-1)
+			return nil, &exec.ExitError{ProcessState: &os.ProcessState{}}
+		case 4: // could not be started
+			return nil, errors.New("exec: \"git\": executable file not found in $PATH")
+		case 5: // died after part of its answer
+			vp_ExitCode(128)
+			return []byte("tr"), &exec.ExitError{ProcessState: &os.ProcessState{}}
+		}
+		// an answer of the wrong type (exit status 0)
+		return []byte("maybe\n"), nil
+	})
+	var err error
+	switch kind {
+	case 0:
+		_, err = repo.ConfigBoolDefault("sizer.progress", vp_Choice("default", 2) == 1)
+	case 1:
+		_, err = repo.ConfigIntDefault("sizer.jsonVersion", 1)
+	case 2:
+		if fault == 6 {
+			vp_Reach("end")
+			return // any text is a string
+		}
+		_, err = repo.ConfigStringDefault("sizer.names", "full")
+	}
+	vp_Assert(err != nil, "a failed or garbled `git config` is reported, not replaced by the default")
+	vp_Reach("end")
 }
